@@ -99,6 +99,7 @@ const EDITS: &[Edit] = &[
     ed("type-spv-with-outputs", Reject, Needs::Fresh),
     ed("type-fee-forged", Reject, Needs::Fresh),
     ed("type-atr-forged", Reject, Needs::Fresh),
+    ed("type-fee-forged-moves-victim-output", Reject, Needs::Fresh),
     ed("output-sum-wraps-u64", Reject, Needs::Fresh),
     ed("expired-input", Reject, Needs::Wrapped),
     // the edge of the retention window (Transaction::validate's age rule, /repo bb88717): with the
@@ -141,7 +142,7 @@ const EDITS: &[Edit] = &[
     // Bound slips count 0 in the fee: only the "no inputs" rule stops a placeholder from consuming one
     ed("type-spv-burns-nft-slip", Reject, Needs::Nft),
     // the signed bytes carry no slip counts: from=[a] to=[b, c] signs like from=[a, b'] to=[c]
-    edk("resplit-output-as-input", "signed-bytes-not-delimited", Needs::Fresh),
+    ed("resplit-output-as-input", Reject, Needs::Fresh),
     // one signed field changed after signing, signature kept: pins what the signature covers
     ed("tamper-after-signing-output-amount", Reject, Needs::Fresh),
     ed("tamper-after-signing-output-key", Reject, Needs::Fresh),
@@ -176,10 +177,11 @@ const EDITS: &[Edit] = &[
     // ---- Bound (NFT) transactions
     ed("bound-create-valid", Accept, Needs::Nft),
     ed("bound-send-valid", Accept, Needs::Nft),
-    ed("bound-owner-not-creator-sends", Observe, Needs::Nft),
-    edk("bound-creator-reclaims-deposit", "bound-creator-reclaims", Needs::Nft),
-    edk("bound-foreign-extra-input", "bound-foreign-input", Needs::Nft),
-    edk("bound-fabricated-triple", "bound-fabricated-triple", Needs::Fresh),
+    // the holder of an NFT with a deposit signs its transfer (/repo c1271fb)
+    ed("bound-owner-not-creator-sends", Accept, Needs::Nft),
+    ed("bound-creator-reclaims-deposit", Reject, Needs::Nft),
+    ed("bound-foreign-extra-input", Reject, Needs::Nft),
+    ed("bound-fabricated-triple", Reject, Needs::Fresh),
     ed("bound-send-others-nft", Reject, Needs::Nft),
     ed("bound-detached-triple", Reject, Needs::Nft),
     ed("bound-send-amount-modified", Reject, Needs::Nft),
@@ -197,7 +199,7 @@ const EDITS: &[Edit] = &[
     ed("bound-create-extra-bound-output", Reject, Needs::Nft),
     ed("bound-slip-in-normal-tx-output", Reject, Needs::Nft),
     ed("bound-slip-in-normal-tx-input", Reject, Needs::Nft),
-    Edit { name: "bound-same-nft-twice-in-block", expect: Reject, known: Some("bound-double-spend-in-block"), needs: Needs::Nft, venues: Venues::BlockOnly, stake_slot: false },
+    Edit { name: "bound-same-nft-twice-in-block", expect: Reject, known: None, needs: Needs::Nft, venues: Venues::BlockOnly, stake_slot: false },
 ];
 
 #[derive(Clone, Copy, Debug)]
@@ -717,6 +719,15 @@ async fn make_edit(w: &mut World, built: &Built, e: usize, ts: u64, rng: &mut Rn
     let gp = w.plan.gp;
     let latest = w.node.blockchain.get_latest_block_id();
     let one = |t: Transaction| Some(vec![t]);
+    // three outputs of the attacker that blocks latest+1 and latest+2 may spend (fork scenarios)
+    let fork_carriers: Vec<Slip> = if w.plan.wrapped() {
+        [latest, latest.saturating_sub(1), latest.saturating_sub(2)]
+            .iter()
+            .filter_map(|id| w.left_behind.iter().find(|(b, _)| b == id).map(|(_, s)| s.clone()))
+            .collect()
+    } else {
+        vec![w.attacker_slips[1].clone(), w.attacker_slips[2].clone(), w.attacker_slips[3].clone()]
+    };
     match EDITS[e].name {
         "baseline-valid" => one(raw_tx(n, vec![own.clone()], vec![slip_out(apk, own.amount)], &ask, ts)),
         "signature-flipped" => {
@@ -768,6 +779,7 @@ async fn make_edit(w: &mut World, built: &Built, e: usize, ts: u64, rng: &mut Rn
         "type-issuance" => one(raw_tx(TransactionType::Issuance, vec![], vec![slip_out(apk, 123_456)], &ask, ts)),
         "type-spv-with-outputs" => one(raw_tx(TransactionType::SPV, vec![], vec![slip_out(apk, 123_456)], &ask, ts)),
         "type-fee-forged" => one(raw_tx(TransactionType::Fee, vec![], vec![slip_out(apk, 123_456)], &ask, ts)),
+        "type-fee-forged-moves-victim-output" => one(raw_tx(TransactionType::Fee, vec![vic.clone()], vec![slip_out(apk, vic.amount)], &ask, ts)),
         "type-atr-forged" => one(raw_tx(TransactionType::ATR, vec![vic.clone()], vec![slip_out(apk, vic.amount)], &ask, ts)),
         "output-sum-wraps-u64" => one(raw_tx(n, vec![own.clone()], vec![slip_out(apk, u64::MAX - 5), slip_out(apk, own.amount + 6)], &ask, ts)),
         "expired-input" => {
@@ -947,11 +959,14 @@ async fn make_edit(w: &mut World, built: &Built, e: usize, ts: u64, rng: &mut Rn
             // the node is on ..T-B; a branch T-C1-C2 arrives whose FIRST block carries the signed spend
             // of an output P that never existed (stored unvalidated: same length); C2 makes the
             // branch longer, the reorganisation is tried, fails at C1 and is abandoned
-            let mut p = own.clone();
+            if fork_carriers.len() < 3 {
+                return None;
+            }
+            let mut p = if w.plan.wrapped() { fork_carriers[0].clone() } else { own.clone() };
             p.amount += 777;
             let t0 = w.tip.clone();
             let mk_carrier = |s: &Slip, at: u64| raw_tx(n, vec![s.clone()], vec![slip_out(apk, s.amount)], &ask, at);
-            let b = make_block(&w.node, t0.hash, t0.timestamp + 100_000, vec![mk_carrier(&w.attacker_slips[3], t0.timestamp + 100_000)], true, 9_011).await.ok()?;
+            let b = make_block(&w.node, t0.hash, t0.timestamp + 100_000, vec![mk_carrier(&fork_carriers[2], t0.timestamp + 100_000)], true, 9_011).await.ok()?;
             if w.node.add_block(b.clone()).await != AddClass::OnChain {
                 w.scenario_failure = Some("the valid block B was not accepted".to_string());
                 return None;
@@ -960,7 +975,7 @@ async fn make_edit(w: &mut World, built: &Built, e: usize, ts: u64, rng: &mut Rn
             // swap the phantom spend into C1 and re-sign C1 and C2 (C2 names C1 by hash)
             let mut builder = fresh_world(built).await.node;
             let c1_ts = t0.timestamp + 101_000;
-            let c1_carrier = mk_carrier(&w.attacker_slips[2], c1_ts);
+            let c1_carrier = mk_carrier(&fork_carriers[1], c1_ts);
             let mut c1 = make_block(&builder, t0.hash, c1_ts, vec![c1_carrier.clone()], true, 9_012).await.ok()?;
             let idx = c1.transactions.iter().position(|t| t.signature == c1_carrier.signature)?;
             c1.transactions[idx] = raw_tx(n, vec![p.clone()], vec![slip_out(apk, p.amount)], &ask, c1_ts);
@@ -973,7 +988,7 @@ async fn make_edit(w: &mut World, built: &Built, e: usize, ts: u64, rng: &mut Rn
                 return None;
             }
             let c2_ts = t0.timestamp + 140_000;
-            let mut c2 = make_block(&builder, c1v.hash, c2_ts, vec![mk_carrier(&w.attacker_slips[1], c2_ts)], true, 9_013).await.ok()?;
+            let mut c2 = make_block(&builder, c1v.hash, c2_ts, vec![mk_carrier(&fork_carriers[0], c2_ts)], true, 9_013).await.ok()?;
             c2.previous_block_hash = c1.hash;
             resign(&mut c2, &builder.sk);
             let r1 = futures_catch(AssertUnwindSafe(w.node.add_block(c1.clone()))).await;
@@ -997,21 +1012,24 @@ async fn make_edit(w: &mut World, built: &Built, e: usize, ts: u64, rng: &mut Rn
             // the node is on ..T-B; a branch T-C1-C2 arrives whose second block carries a signed
             // spend of an output P that never existed: the reorganisation is tried and abandoned.
             // Afterwards the attacker spends P again.
-            let mut p = own.clone();
+            if fork_carriers.len() < 3 {
+                return None;
+            }
+            let mut p = if w.plan.wrapped() { fork_carriers[0].clone() } else { own.clone() };
             p.amount += 777;
             let t0 = w.tip.clone();
             let mk_carrier = |s: &Slip, at: u64| raw_tx(n, vec![s.clone()], vec![slip_out(apk, s.amount)], &ask, at);
-            let b = make_block(&w.node, t0.hash, t0.timestamp + 100_000, vec![mk_carrier(&w.attacker_slips[3], t0.timestamp + 100_000)], true, 9_001).await.ok()?;
+            let b = make_block(&w.node, t0.hash, t0.timestamp + 100_000, vec![mk_carrier(&fork_carriers[2], t0.timestamp + 100_000)], true, 9_001).await.ok()?;
             if w.node.add_block(b.clone()).await != AddClass::OnChain {
                 return None;
             }
             let mut builder = fresh_world(built).await.node;
-            let c1 = make_block(&builder, t0.hash, t0.timestamp + 101_000, vec![mk_carrier(&w.attacker_slips[2], t0.timestamp + 101_000)], true, 9_002).await.ok()?;
+            let c1 = make_block(&builder, t0.hash, t0.timestamp + 101_000, vec![mk_carrier(&fork_carriers[1], t0.timestamp + 101_000)], true, 9_002).await.ok()?;
             if builder.add_block(c1.clone()).await != AddClass::OnChain {
                 return None;
             }
             let c2_ts = t0.timestamp + 140_000;
-            let c2_carrier = mk_carrier(&w.attacker_slips[1], c2_ts);
+            let c2_carrier = mk_carrier(&fork_carriers[0], c2_ts);
             let mut c2 = make_block(&builder, c1.hash, c2_ts, vec![c2_carrier.clone()], true, 9_003).await.ok()?;
             let idx = c2.transactions.iter().position(|t| t.signature == c2_carrier.signature)?;
             c2.transactions[idx] = raw_tx(n, vec![p.clone()], vec![slip_out(apk, p.amount)], &ask, c2_ts);
@@ -1356,8 +1374,23 @@ fn abstract_tx(node: &Node, tx: &Transaction, int: &mut Interner) -> String {
     };
     let from: Vec<String> = tx.from.iter().map(|s| slip(s, int)).collect();
     let to: Vec<String> = tx.to.iter().map(|s| slip(s, int)).collect();
-    let sig_ok = match (&tx.hash_for_signature, tx.from.first()) {
-        (Some(h), Some(f)) => verify_signature(h, &tx.signature, &f.public_key),
+    // the key the signature must verify against, restated: the owner of the first input; in a
+    // Bound transaction with >= 3 inputs whose first is a Bound slip and whose second carries an
+    // amount, the owner of the second
+    let signer_key = if tx.from.is_empty() {
+        None
+    } else if tx.transaction_type == TransactionType::Bound && tx.from.len() >= 3 && tx.from[0].slip_type == SlipType::Bound && tx.from[1].amount > 0 {
+        Some(tx.from[1].public_key)
+    } else {
+        Some(tx.from[0].public_key)
+    };
+    if let Some(k) = signer_key {
+        if tx.signer_public_key() != k {
+            DISCREPANCIES.lock().unwrap().push(format!("Transaction::signer_public_key differs from the stated rule for {}", tx_desc(tx)));
+        }
+    }
+    let sig_ok = match (&tx.hash_for_signature, signer_key) {
+        (Some(h), Some(k)) => verify_signature(h, &tx.signature, &k),
         _ => false,
     };
     format!(
@@ -1787,6 +1820,9 @@ async fn main() {
         Plan { gp: 8, len: 3, stake: STAKE, nft: false, fee: 0 },
         Plan { gp: 4, len: 7, stake: 0, nft: false, fee: 0 },
         Plan { gp: 4, len: 12, stake: 0, nft: false, fee: 0 },
+        // tip 15: the next block (16 = 2 * ring size) sits in slot 0 of the block ring, and block 1 has
+        // long left the ring
+        Plan { gp: 4, len: 14, stake: 0, nft: false, fee: 0 },
         Plan { gp: 20, len: 4, stake: 0, nft: false, fee: 7_000 },
     ];
     if thorough {
@@ -1803,17 +1839,51 @@ async fn main() {
         }
     }
     let n_fuzz = if thorough { 600 } else { 160 };
+    {
+        // before there is a chain the pool takes issuance transactions (genesis production); the
+        // gate that refuses them later must not refuse them here
+        let mut node = Node::new(&params_of(&Plan { gp: 20, len: 0, stake: 0, nft: false, fee: 0 }), 1);
+        let mut t = Transaction::create_issuance_transaction(keypair(2).0, 1_000_000);
+        let (pk, sk) = (node.pk, node.sk);
+        t.generate(&pk, 0, 0);
+        t.sign(&sk);
+        let mut g = t.clone();
+        g.generate(&pk, 0, 0);
+        let code = real_verdict(&node, &g);
+        let mut int = Interner::default();
+        let abs = abstract_tx(&node, &g, &mut int);
+        let sig = t.signature;
+        let r = futures_catch(AssertUnwindSafe(node.mempool.add_transaction_if_validates(t, &node.blockchain))).await;
+        let taken = r.is_ok() && node.mempool.transactions.contains_key(&sig);
+        let desc = format!("{{\"case\":{},\"edit\":\"issuance-before-genesis\",\"venue\":\"pool\"}}", case_no);
+        if !taken {
+            summary.oracle_failure(case_no, "an issuance transaction is not pooled on a node without a chain (genesis production)", &desc);
+        }
+        coq_cases.push(format!(
+            "(mkEnv 0 {} 0 20 {} true, [({}, {})], None, Some ({}, {}), None)",
+            gal::boolean(ovf),
+            int.get(&pk),
+            abs,
+            code,
+            abs,
+            gal::boolean(taken)
+        ));
+        summary.count("outcome", &format!("issuance-before-genesis:pool:{}", if taken { "accepted" } else { "rejected" }));
+        summary.case_descs.push(desc);
+        case_no += 1;
+    }
     for (wi, plan) in plans.iter().enumerate() {
         let mut brng = Rng::new(args.seed * 1000 + wi as u64);
         let built = build_blocks(*plan, &mut brng).await;
         let env = |w: &World, int: &mut Interner| {
             format!(
-                "mkEnv {} {} {} {} {}",
+                "mkEnv {} {} {} {} {} {}",
                 w.node.blockchain.social_stake_requirement,
                 gal::boolean(ovf),
                 w.node.blockchain.get_latest_block_id(),
                 w.node.blockchain.genesis_period,
-                int.get(&w.node.pk)
+                int.get(&w.node.pk),
+                gal::boolean(w.node.blockchain.blocks.is_empty() && w.node.blockchain.genesis_block_id == 0)
             )
         };
         let world_desc = format!(
@@ -1832,7 +1902,7 @@ async fn main() {
                 Needs::Nft => !plan.wrapped() && plan.nft,
                 Needs::Staking => !plan.wrapped() && plan.stake > 0,
                 Needs::Payouts => !plan.wrapped() && plan.fee > 0 && plan.len >= 3,
-                Needs::Fork => !plan.wrapped() && plan.stake == 0,
+                Needs::Fork => plan.stake == 0,
             };
             if !applicable {
                 continue;
@@ -1858,7 +1928,7 @@ async fn main() {
                             // a scripted scenario that cannot be played is a finding, not a skipped case
                             summary.oracle_failure(case_no, &format!("[{}] {}", edit.name, why), &format!("{{\"case\":{},\"edit\":\"{}\",\"venue\":\"{}\",{}}}", case_no, edit.name, venue, world_desc));
                             summary.case_descs.push(format!("{{\"case\":{},\"edit\":\"{}\",\"venue\":\"{}\",{}}}", case_no, edit.name, venue, world_desc));
-                            coq_cases.push("(mkEnv 0 true 0 0 0, [], None, None, None)".to_string());
+                            coq_cases.push("(mkEnv 0 true 0 0 0 false, [], None, None, None)".to_string());
                             case_no += 1;
                         } else {
                             summary.count("edit_not_applicable", edit.name);
